@@ -1,139 +1,320 @@
 import NbioVerif.Model.WsCb
-/-! Invariant of the WebSocket callback plumbing: which jobs have been accepted by the job queue, in which order. -/
+import NbioVerif.Lemmas.ExecQInv
+/-! Invariant of the WebSocket callback plumbing over `ExecQ`: which jobs have been accepted, in which order; and the
+bridge "every queue state reached here is an `ExecQ`-reachable state". -/
 namespace WsCb
 
-theorem jinv {q : JobQ.St} (a : JobQ.Act) (h : JobQ.Inv q) : JobQ.Inv (jstep q a) := by
-  unfold jstep
-  cases hs : JobQ.step q a with
-  | none => simpa using h
-  | some q' => simpa using JobQ.inv_step q q' a h hs
+/-! ### what an `ExecQ.step .conn` does to `acc` and `closed` -/
 
-theorem jstep_submit_open (q : JobQ.St) (j : Nat) (must : Bool) (h : (!must && q.closed) = false) :
-    (jstep q (.submit j must)).acc = q.acc ++ [j] ∧ (jstep q (.submit j must)).closed = q.closed := by
-  simp [jstep, JobQ.step, h]
+theorem take_acc (big : Bool) (q : ExecQ.St) (d : Nat) (x : ExecQ.Drainer) :
+    (ExecQ.take .conn big q d x).acc = q.acc ∧ (ExecQ.take .conn big q d x).closed = q.closed := by
+  unfold ExecQ.take
+  split
+  · exact ⟨rfl, rfl⟩
+  · split <;> exact ⟨rfl, rfl⟩
 
-theorem jstep_submit_closed (q : JobQ.St) (j : Nat) (h : q.closed = true) :
-    jstep q (.submit j false) = q := by
-  simp [jstep, JobQ.step, h]
+theorem submit_open {q q' : ExecQ.St} {j : Nat} {must : Bool}
+    (h : ExecQ.step .conn q (.submit j must) = some q') (ho : must = true ∨ q.closed = false) :
+    q'.acc = q.acc ++ [j] ∧ q'.closed = q.closed := by
+  simp only [ExecQ.step] at h
+  split at h
+  · rename_i hc
+    simp at hc
+    rcases ho with ho | ho
+    · simp [ho] at hc
+    · simp [ho] at hc
+  · split at h <;> (cases h; exact ⟨rfl, rfl⟩)
 
-theorem jstep_close (q : JobQ.St) : (jstep q .close).acc = q.acc ∧ (jstep q .close).closed = true := by
-  simp [jstep, JobQ.step]
+theorem submit_closed {q q' : ExecQ.St} {j : Nat}
+    (h : ExecQ.step .conn q (.submit j false) = some q') (hc : q.closed = true) : q' = q := by
+  simp [ExecQ.step, hc] at h
+  exact h.symm
+
+theorem close_acc {q q' : ExecQ.St} (h : ExecQ.step .conn q .close = some q') :
+    q'.acc = q.acc ∧ q'.closed = true := by
+  simp [ExecQ.step] at h
+  cases h; exact ⟨rfl, rfl⟩
+
+theorem drainer_acc {q q' : ExecQ.St} {a : ExecQ.Act} (ha : drainerAct a = true)
+    (h : ExecQ.step .conn q a = some q') : q'.acc = q.acc ∧ q'.closed = q.closed := by
+  cases a with
+  | submit j m => simp [drainerAct] at ha
+  | close => simp [drainerAct] at ha
+  | spawn d big =>
+    simp only [ExecQ.step] at h
+    split at h
+    · split at h
+      · cases h; exact ⟨rfl, rfl⟩
+      · cases h
+    · cases h
+  | start d =>
+    simp only [ExecQ.step] at h
+    split at h
+    · split at h
+      · cases h; exact ⟨rfl, rfl⟩
+      · cases h
+    · cases h
+  | finish d p =>
+    simp only [ExecQ.step] at h
+    split at h
+    · split at h
+      · cases h; exact ⟨rfl, rfl⟩
+      · cases h
+    · cases h
+  | next d big =>
+    simp only [ExecQ.step] at h
+    split at h
+    · rename_i x _
+      split at h
+      · cases h; exact take_acc big q d x
+      · cases h
+    · cases h
+
+/-! ### every step here is one `ExecQ.step .conn` -/
+
+theorem step_q {s s' : St} {a : Act} (h : step s a = some s') : ∃ b, ExecQ.step .conn s.q b = some s'.q := by
+  cases a with
+  | upgrade =>
+    simp only [step] at h
+    split at h
+    · cases h
+    · cases hq : ExecQ.step .conn s.q (.submit jobOpen false) with
+      | none => simp [hq] at h
+      | some q' => simp [hq] at h; cases h; exact ⟨_, hq⟩
+  | recv =>
+    simp only [step] at h
+    split at h
+    · cases h
+    · cases hq : ExecQ.step .conn s.q (.submit (jobMsg s.wireMsgs) false) with
+      | none => simp [hq] at h
+      | some q' => simp [hq] at h; cases h; exact ⟨_, hq⟩
+  | flip =>
+    simp only [step] at h
+    cases hq : ExecQ.step .conn s.q .close with
+    | none => simp [hq] at h
+    | some q' => simp [hq] at h; cases h; exact ⟨_, hq⟩
+  | notify =>
+    simp only [step] at h
+    split at h
+    · cases hq : ExecQ.step .conn s.q (.submit jobClose true) with
+      | none => simp [hq] at h
+      | some q' => simp [hq] at h; cases h; exact ⟨_, hq⟩
+    · cases h
+  | q a =>
+    simp only [step] at h
+    split at h
+    · cases h
+    · cases hq : ExecQ.step .conn s.q a with
+      | none => simp [hq] at h
+      | some q' => simp [hq] at h; cases h; exact ⟨_, hq⟩
+
+/-- **bridge**: the queue state after any run of this model is the state of an `ExecQ` run -/
+theorem run_q {s : St} (as : List Act) : ∃ bs, (run s as).q = ExecQ.run .conn s.q bs := by
+  induction as generalizing s with
+  | nil => exact ⟨[], rfl⟩
+  | cons a as ih =>
+    simp only [run]
+    split
+    · rename_i s' hs
+      obtain ⟨b, hb⟩ := step_q hs
+      obtain ⟨bs, hbs⟩ := ih (s := s')
+      exact ⟨b :: bs, by simp only [ExecQ.run, hb]; exact hbs⟩
+    · exact ih
+
+theorem run_q_reachable (as : List Act) : ∃ bs, (run init as).q = ExecQ.run .conn ExecQ.init bs :=
+  run_q (s := init) as
+
+/-! ### the invariant -/
 
 structure Inv (s : St) : Prop where
-  jq     : JobQ.Inv s.q
-  acc    : s.q.acc = expected s
-  notif  : s.notified = true → s.q.closed = true
+  jq      : ExecQ.Inv .conn s.q
+  acc     : s.q.acc = expected s
+  notif   : s.notified = true → s.q.closed = true
   openAll : s.q.closed = false → s.accMsgs = s.wireMsgs
-  le     : s.accMsgs ≤ s.wireMsgs
-  up     : s.upgraded = false → s.accMsgs = 0 ∧ s.notified = false
+  le      : s.accMsgs ≤ s.wireMsgs
+  up      : s.upgraded = false → s.accMsgs = 0 ∧ s.notified = false ∧ s.wireMsgs = 0
+  est     : s.established = some true → s.upgraded = true
+  noEst   : s.established ≠ some true → s.wireMsgs = 0
+  estF    : s.established = some false → s.q.closed = true
 
 theorem inv_init : Inv init := by
-  refine ⟨JobQ.inv_init, ?_, ?_, ?_, ?_, ?_⟩ <;> simp [init, expected, JobQ.init]
+  refine ⟨ExecQ.inv_init .conn, ?_, ?_, ?_, ?_, ?_, ?_, ?_, ?_⟩ <;> simp [init, expected, ExecQ.init]
 
-theorem run_acc (q q' : JobQ.St) (h : JobQ.step q .run = some q') : q'.acc = q.acc ∧ q'.closed = q.closed := by
-  simp only [JobQ.step] at h
-  split at h
-  · split at h
-    · cases h; exact ⟨rfl, rfl⟩
-    · cases h
-  · cases h
+theorem expected_nil_of_not_upgraded {s : St} (h : Inv s) (hu : s.upgraded = false) : expected s = [] := by
+  obtain ⟨ha, hn, _⟩ := h.up hu
+  simp [expected, hu, ha, hn]
 
-theorem next_acc (q q' : JobQ.St) (h : JobQ.step q .next = some q') : q'.acc = q.acc ∧ q'.closed = q.closed := by
-  simp only [JobQ.step] at h
-  split at h
-  · split at h
-    · cases h; exact ⟨rfl, rfl⟩
-    · cases h; exact ⟨rfl, rfl⟩
-  · cases h
+/-- a drainer that is about to enter a job holds a job that was accepted -/
+theorem ready_job_accepted {q : ExecQ.St} (hi : ExecQ.Inv .conn q) {d : Nat} {x : ExecQ.Drainer}
+    (hx : q.drs[d]? = some x) (hp : x.ph = .ready) : x.job ∈ q.acc := by
+  rcases hi.shape with ⟨hd, _⟩ | ⟨y, hd, di⟩
+  · rw [hd] at hx; simp at hx
+  · obtain ⟨_, hxy⟩ := ExecQ.single_get hd hx
+    subst hxy
+    obtain ⟨p, _, hget, hacc, _⟩ := di.hold (Or.inl hp)
+    rw [← hacc]
+    apply List.mem_append_right
+    rw [ExecQ.drop_succ_of_get hget]
+    exact List.mem_cons_self ..
 
 theorem inv_step {s s' : St} {a : Act} (h : Inv s) (hs : step s a = some s') : Inv s' := by
-  obtain ⟨h1, h2, h3, h4, h5, h6⟩ := h
+  obtain ⟨b, hb⟩ := step_q hs
+  have hjq : ExecQ.Inv .conn s'.q := ExecQ.inv_step .conn s.q s'.q b h.jq hb
+  have hall := h
+  obtain ⟨h0, h2, h3, h4, h5, h6, h7, h8, h9⟩ := h
   cases a with
   | upgrade =>
     simp only [step] at hs
     split at hs
     · cases hs
     · rename_i hc
-      cases hs
-      have hu : s.upgraded = false := by
-        cases hq : s.upgraded <;> simp [hq] at hc ⊢
-      have hcl : s.q.closed = false := by
-        cases hq : s.q.closed <;> simp [hq] at hc ⊢
-      obtain ⟨ha, hn⟩ := h6 hu
-      obtain ⟨a1, a2⟩ := jstep_submit_open s.q jobOpen false (by simp [hcl])
-      refine ⟨jinv (.submit jobOpen false) h1, ?_, ?_, ?_, h5, ?_⟩
-      · simp only [a1, h2, expected, hu, ha, hn]
-        simp
-      · intro hn'; simp [hn] at hn'
-      · intro _; exact h4 hcl
-      · intro hf; simp at hf
+      have hu : s.upgraded = false := by cases hq : s.upgraded <;> simp [hq] at hc ⊢
+      have hcl : s.q.closed = false := by cases hq : s.q.closed <;> simp [hq] at hc ⊢
+      cases hq : ExecQ.step .conn s.q (.submit jobOpen false) with
+      | none => simp [hq] at hs
+      | some q' =>
+        simp [hq] at hs; cases hs
+        obtain ⟨a1, a2⟩ := submit_open hq (Or.inr hcl)
+        obtain ⟨ha, hn, hw⟩ := h6 hu
+        refine ⟨hjq, ?_, ?_, ?_, h5, ?_, ?_, h8, ?_⟩
+        · simp only [a1, h2, expected, hu, ha, hn]; simp
+        · intro hn'; simp [hn] at hn'
+        · intro _; exact h4 hcl
+        · intro hf; simp at hf
+        · intro _; rfl
+        · intro he; rw [a2]; exact h9 he
   | recv =>
     simp only [step] at hs
     split at hs
     · cases hs
-    · rename_i hu
-      have hu' : s.upgraded = true := by simpa using hu
-      cases hs
-      cases hcl : s.q.closed with
-      | true =>
-        rw [jstep_submit_closed _ _ hcl]
-        refine ⟨h1, ?_, h3, ?_, ?_, ?_⟩
-        · simp only [hcl, if_true]; simpa [expected] using h2
-        · intro hc; simp [hcl] at hc
-        · simp only [hcl, if_true]; omega
-        · intro hf; simp [hu'] at hf
-      | false =>
-        obtain ⟨a1, a2⟩ := jstep_submit_open s.q (jobMsg s.wireMsgs) false (by simp [hcl])
-        have hn : s.notified = false := by
-          cases hq : s.notified with
-          | false => rfl
-          | true => have := h3 hq; simp [hcl] at this
-        have hacc := h4 hcl
-        refine ⟨jinv (.submit (jobMsg s.wireMsgs) false) h1, ?_, ?_, ?_, ?_, ?_⟩
-        · simp only [a1, h2, expected, hu', hn, hcl, if_true]
-          simp [List.range_succ, hacc]
-        · intro hn'; simp [hn] at hn'
-        · intro _; simp [hcl, hacc]
-        · simp [hcl]; omega
-        · intro hf; simp [hu'] at hf
+    · rename_i he
+      have he' : s.established = some true := by
+        cases hq : s.established with
+        | none => simp [hq] at he
+        | some b => cases b <;> simp [hq] at he ⊢
+      have hu : s.upgraded = true := h7 he'
+      cases hq : ExecQ.step .conn s.q (.submit (jobMsg s.wireMsgs) false) with
+      | none => simp [hq] at hs
+      | some q' =>
+        simp [hq] at hs; cases hs
+        cases hcl : s.q.closed with
+        | true =>
+          have := submit_closed hq hcl
+          subst this
+          refine ⟨hjq, ?_, h3, ?_, ?_, ?_, h7, ?_, h9⟩
+          · simp only [hcl, if_true]; simpa [expected] using h2
+          · intro hc; simp [hcl] at hc
+          · simp only [hcl, if_true]; omega
+          · intro hf; simp [hu] at hf
+          · intro hne; exact absurd he' hne
+        | false =>
+          obtain ⟨a1, a2⟩ := submit_open hq (Or.inr hcl)
+          have hn : s.notified = false := by
+            cases hq' : s.notified with
+            | false => rfl
+            | true => have := h3 hq'; simp [hcl] at this
+          have hacc := h4 hcl
+          refine ⟨hjq, ?_, ?_, ?_, ?_, ?_, h7, ?_, ?_⟩
+          · simp only [a1, h2, expected, hu, hn, hcl]
+            simp [List.range_succ, hacc]
+          · intro hn'; simp [hn] at hn'
+          · intro _; simp [hcl, hacc]
+          · simp [hcl]; omega
+          · intro hf; simp [hu] at hf
+          · intro hne; exact absurd he' hne
+          · intro hf; rw [he'] at hf; cases hf
   | flip =>
-    simp only [step] at hs; cases hs
-    obtain ⟨a1, a2⟩ := jstep_close s.q
-    refine ⟨jinv .close h1, ?_, ?_, ?_, h5, h6⟩
-    · rw [a1, h2]; rfl
-    · intro _; exact a2
-    · intro hc; rw [a2] at hc; cases hc
+    simp only [step] at hs
+    cases hq : ExecQ.step .conn s.q .close with
+    | none => simp [hq] at hs
+    | some q' =>
+      simp [hq] at hs; cases hs
+      obtain ⟨a1, a2⟩ := close_acc hq
+      refine ⟨hjq, ?_, ?_, ?_, h5, h6, h7, h8, ?_⟩
+      · rw [a1, h2]; rfl
+      · intro _; exact a2
+      · intro hc; rw [a2] at hc; cases hc
+      · intro _; exact a2
   | notify =>
     simp only [step] at hs
     split at hs
     · rename_i hc
-      cases hs
       simp only [Bool.and_eq_true, Bool.not_eq_true'] at hc
       obtain ⟨⟨hcl, hn⟩, hu⟩ := hc
-      obtain ⟨a1, a2⟩ := jstep_submit_open s.q jobClose true (by simp)
-      refine ⟨jinv (.submit jobClose true) h1, ?_, ?_, ?_, h5, ?_⟩
-      · simp only [a1, h2, expected, hn, hu]
-        simp
-      · intro _; rw [a2]; exact hcl
-      · intro hc'; rw [a2, hcl] at hc'; cases hc'
-      · intro hf; simp [hu] at hf
+      cases hq : ExecQ.step .conn s.q (.submit jobClose true) with
+      | none => simp [hq] at hs
+      | some q' =>
+        simp [hq] at hs; cases hs
+        obtain ⟨a1, a2⟩ := submit_open hq (Or.inl rfl)
+        refine ⟨hjq, ?_, ?_, ?_, h5, ?_, h7, h8, ?_⟩
+        · simp only [a1, h2, expected, hn, hu]; simp
+        · intro _; rw [a2]; exact hcl
+        · intro hc'; rw [a2, hcl] at hc'; cases hc'
+        · intro hf; simp [hu] at hf
+        · intro _; rw [a2]; exact hcl
     · cases hs
-  | run =>
+  | q a =>
     simp only [step] at hs
-    cases hq : JobQ.step s.q .run with
-    | none => simp [hq] at hs
-    | some q' =>
-      simp [hq] at hs; cases hs
-      obtain ⟨a1, a2⟩ := run_acc _ _ hq
-      exact ⟨JobQ.inv_step _ _ _ h1 hq, by rw [a1, h2]; rfl, by rw [a2]; exact h3, by rw [a2]; exact h4, h5, h6⟩
-  | next =>
-    simp only [step] at hs
-    cases hq : JobQ.step s.q .next with
-    | none => simp [hq] at hs
-    | some q' =>
-      simp [hq] at hs; cases hs
-      obtain ⟨a1, a2⟩ := next_acc _ _ hq
-      exact ⟨JobQ.inv_step _ _ _ h1 hq, by rw [a1, h2]; rfl, by rw [a2]; exact h3, by rw [a2]; exact h4, h5, h6⟩
+    split at hs
+    · cases hs
+    · rename_i hda
+      have hda' : drainerAct a = true := by simpa using hda
+      cases hq : ExecQ.step .conn s.q a with
+      | none => simp [hq] at hs
+      | some q' =>
+        simp only [hq, Option.map_some, Option.some.injEq] at hs
+        cases hs
+        obtain ⟨a1, a2⟩ := drainer_acc hda' hq
+        by_cases hen : (entersOpen s.q a && s.established.isNone) = true
+        · have hne : nextEst s a = some (!s.q.closed) := by simp only [nextEst, hen, if_true]
+          simp only [Bool.and_eq_true] at hen
+          obtain ⟨hen1, hen2⟩ := hen
+          have hnone : s.established = none := by
+            cases hq' : s.established with
+            | none => rfl
+            | some _ => simp [hq'] at hen2
+          -- the upgrade job is entered: it was accepted, hence `upgraded`
+          have hup : s.upgraded = true := by
+            cases a with
+            | start d =>
+              simp only [entersOpen] at hen1
+              split at hen1
+              · rename_i x hx
+                simp only [Bool.and_eq_true, beq_iff_eq] at hen1
+                have hmem := ready_job_accepted h0 hx hen1.1
+                rw [hen1.2, h2] at hmem
+                cases hu : s.upgraded with
+                | true => rfl
+                | false =>
+                  rw [expected_nil_of_not_upgraded hall hu] at hmem
+                  cases hmem
+              · cases hen1
+            | _ => simp [entersOpen] at hen1
+          have hw0 : s.wireMsgs = 0 := h8 (by rw [hnone]; simp)
+          refine ⟨hjq, ?_, ?_, ?_, h5, h6, ?_, ?_, ?_⟩
+          · show q'.acc = expected s
+            rw [a1, h2]
+          · intro hn; show q'.closed = true; rw [a2]; exact h3 hn
+          · intro hc; exact h4 (by rw [← a2]; exact hc)
+          · intro _; exact hup
+          · intro _; exact hw0
+          · intro hf
+            show q'.closed = true
+            have hf' : nextEst s a = some false := hf
+            rw [hne] at hf'
+            rw [a2]
+            cases hcl : s.q.closed with
+            | true => rfl
+            | false => simp [hcl] at hf'
+        · have hne : nextEst s a = s.established := by simp only [nextEst, hen, Bool.false_eq_true, if_false]
+          refine ⟨hjq, ?_, ?_, ?_, h5, h6, ?_, ?_, ?_⟩
+          · show q'.acc = expected s
+            rw [a1, h2]
+          · intro hn; show q'.closed = true; rw [a2]; exact h3 hn
+          · intro hc; exact h4 (by rw [← a2]; exact hc)
+          · intro he; exact h7 (by rw [← hne]; exact he)
+          · intro he; exact h8 (by rw [← hne]; exact he)
+          · intro hf; show q'.closed = true; rw [a2]; exact h9 (by rw [← hne]; exact hf)
 
 theorem inv_run {s : St} (as : List Act) (h : Inv s) : Inv (run s as) := by
   induction as generalizing s with
@@ -179,6 +360,5 @@ theorem expected_nodup (s : St) : (expected s).Nodup := by
         obtain ⟨k, _, rfl⟩ := ha
         simp [jobMsg, jobClose]
     · simp at hb
-
 
 end WsCb
